@@ -1397,6 +1397,19 @@ def judge(I, spec, alloc, label):
                                            % tpn
         first = min(r['node'] for r in ranks)       # position in node_list
         block = I['ibrun_offset'] // tpn
+        # within a node's block of the host list the offset selects the slot
+        # (`cores_per_rank` cores wide) ibrun starts at: it has to be the slot
+        # of the lowest core the placement uses ON THAT FIRST NODE
+        cpr_  = max(1, len(ranks[0]['cores']))
+        cmin  = min(min(r['cores']) for r in ranks if r['node'] == first)
+        want  = first * tpn + cmin // cpr_
+        if I['ibrun_offset'] != want:
+            return 'ibrun-offset-wrong-slot', \
+                   'offset %d: the first placement node is #%d (%s), its ' \
+                   'lowest core %d is slot %d of that node, i.e. offset %d ' \
+                   '(%d host list entries per node)' \
+                   % (I['ibrun_offset'], first, names[first], cmin,
+                      cmin // cpr_, want, tpn)
         if block != first:
             return 'ibrun-offset-outside-node-block', \
                    'offset %d with %d host list entries per node lies in the ' \
